@@ -756,7 +756,7 @@ func isLenCall(v ssa.Value) (ssa.Value, bool) {
 	if !ok {
 		return nil, false
 	}
-	if b, ok := c.Call.Value.(*ssa.Builtin); ok && b.Name() == "len" && len(c.Call.Args) == 1 {
+	if b, ok := c.Call.Value.(*ssa.Builtin); ok && nm(b) == "len" && len(c.Call.Args) == 1 {
 		return c.Call.Args[0], true
 	}
 	return nil, false
@@ -1524,7 +1524,7 @@ func (w *World) OwnerChain(f *ssa.Function) []*ssa.Function {
 		cur := chain[len(chain)-1]
 		exported := cur.Object() != nil && cur.Object().Exported()
 		isIfaceMethod := cur.Signature.Recv() != nil && oi.iface[cur.Name()]
-		if exported || isIfaceMethod || cur.Name() == "init" || cur.Name() == "main" {
+		if exported || isIfaceMethod || nm(cur) == "init" || nm(cur) == "main" {
 			break
 		}
 		var only *ssa.Function
